@@ -45,6 +45,11 @@ def handle : List String → String
     match parse ((words ws).map lex) with
     | some d => showDict d
     | none => "unmodelled"
+  | ["estruct", ws] =>
+    match estructParse ((words ws).map lex) with
+    | some r => "usage=" ++ hex (r.usage.toList.map Char.toNat) ++ ";picture=" ++
+        (match r.picture with | some p => hex (p.toList.map Char.toNat) | none => "~")
+    | none => "unmodelled"
   | ["lex", ws] => joinWith "," ((words ws).map fun w => match lex w with
       | .kw _ => "k" | .num _ => "n" | .name _ => "a" | .other _ => "o")
   | _ => "bad-op"
